@@ -20,6 +20,7 @@ RULE = ("generated *_test.ucg files with 0..8 assertions, each true / false / ma
 RULE += (" " + 'Also: a shared non-test helper file with assertions of its own imported by some of the test files (its assertions belong to every importer); run-time build errors between assertions (the assertions evaluated before the error must be logged); the same file given two and three times in one invocation.')
 RULE += (" " + 'Nine more assertion kinds: the assert sits in a module body instantiated by a statement, below one or two function calls, or in the callback of map / filter / reduce.')
 RULE += (" " + 'Half of the file sets are also spread over a directory tree (nested directories, directories with only passing files, one without test files) and run with `test -r <dir>` and `test -r .` from inside, together with the mirror image of the tree.')
+RULE += (" " + 'Four more malformed kinds: desc NULL literally and through a lookup, ok NULL, desc a list.')
 
 AKINDS = ["true", "true", "true", "false", "non-tuple", "missing-ok", "non-bool-ok", "non-string-desc", "computed-true", "computed-false",
           "expr-true", "expr-false",
